@@ -255,10 +255,10 @@ def wf_index(tree, nodes, *, expected_id=None, probe_ids=(), probe_data=(), id_o
         # the same lookups restricted to a branch (Node.find_all / find_first with a data object or an id)
         done = 0
         for n in nodes:
-            par = n.parent
-            if par is None or done >= 12:
-                continue
             try:
+                par = n.parent
+                if par is None or done >= 12:
+                    continue
                 d = n.data_id
                 if id_of_data(n.data) != d:
                     continue  # explicit id: the data object does not determine it
